@@ -722,7 +722,7 @@ func genForge(r *rand.Rand, id string, size int, total int) []string {
 	return g.lines
 }
 
-var garbageKinds = []string{"random", "empty", "nullheads", "emptyobj", "nullmix", "illtyped", "truncated", "flip", "flip", "dropfield", "dropfield", "dropfield", "wrongaddr", "deep"}
+var garbageKinds = []string{"random", "empty", "nullheads", "emptyobj", "nullmix", "illtyped", "truncated", "flip", "flip", "dropfield", "dropfield", "dropfield", "wrongaddr", "wronghash", "wronghash", "deep"}
 var dropFields = []string{"identity", "clock", "hash", "next", "refs", "key", "sig", "payload", "id", "v", "null:identity", "null:clock", "null:hash",
 	"identity.id", "identity.publicKey", "identity.signatures", "identity.type", "clock.id", "clock.time", "identity+clock", "identity+hash", "clock+hash", "next+refs", "identity+clock+hash"}
 
